@@ -6,6 +6,8 @@ import (
 	"encoding/base64"
 	"fmt"
 	"math"
+	"runtime"
+	"runtime/debug"
 	"sort"
 	"strconv"
 	"strings"
@@ -440,54 +442,12 @@ func c09BoundaryMsg(cs *h.Case, st *c09Static) (*dynamicpb.Message, int, string)
 }
 
 func runC09(c *h.Ctx) {
-	c.Run("messages", c.N(8000, 300000), func(cs *h.Case) {
-		sc := gen.GenPSchema(cs.R, gen.PCfg{Unpacked: true, MaxDepth: 2, MaxFields: 6, Nested: cs.R.Bool(), Enums: true, BigNums: true, JSONNames: true, Optionals: cs.R.Bool()})
-		pc, err := PCompile(sc)
-		if err != nil {
-			cs.Cover("oracle_schema_rejected")
-			return
-		}
-		cs.Info("proto", pc.Text)
-		svc, err := dproto.NewDescritorFromContent(context.Background(), "verif.proto", pc.Text, nil)
-		if err != nil {
-			cs.Viol("j2p:parse", "err", err)
-			return
-		}
-		desc := svc.LookupMethodByName("M").Input()
-		m := PGenMsg(cs.R, pc.Root, PValCfg{MaxElems: 5, MaxDepth: 3}, 0)
-		ps := PJSpell{WS: cs.R.Intn(3), Escape: cs.R.Bool(), NumExp: cs.R.Bool(), Nulls: cs.R.Chance(25), Unknowns: cs.R.Chance(30), Shuffle: cs.R.Bool(), Names: cs.R.Intn(3)}
-		doc, w := PRenderJSON(cs.R, m, ps)
-		cs.Info("message", trunc(fmt.Sprint(m)))
-		cs.Info("spell", fmt.Sprintf("%+v", ps))
-		o := conv.Options{DisallowUnknownField: cs.R.Chance(30)}
-		if o.DisallowUnknownField && w.unknowns > 0 {
-			cv := j2p.NewBinaryConv(o)
-			out, err := cv.Do(context.Background(), desc, []byte(doc))
-			if err == nil {
-				cs.Viol("j2p:unknown-member-accepted", "json", trunc(doc), "out", out)
-			}
-			cs.Cover("j2p_unknown_rejected")
-			return
-		}
-		kind := "msg"
-		if w.nulls > 0 {
-			kind = "null-members"
-		} else if w.unknowns > 0 {
-			kind = "unknown-members"
-		}
-		if c09Check(cs, desc, pc.Root, doc, m, o, kind) {
-			cs.Cover("j2p_ok")
-			if w.nulls > 0 {
-				cs.Cover("j2p_ok_with_null_members")
-			}
-			if w.unknowns > 0 {
-				cs.Cover("j2p_ok_with_unknown_members")
-			}
-			cs.Distinct(fmt.Sprintf("j-%v-%v-%d-%s", w.nulls > 0, w.unknowns > 0, ps.Names, c20Shape(m)))
-			if cs.I == 4 {
-				cs.Sample(map[string]interface{}{"proto": pc.Text, "json": trunc(doc), "message": trunc(fmt.Sprint(m))})
-			}
-		}
+	c.Run("messages", c.N(8000, 300000), func(cs *h.Case) { c09Messages(cs, false) })
+	// scalar members whose field number is around 2^28 (a handful: dynamicgo's number table takes 2 GiB each)
+	c.Run("huge-field-numbers", c.N(10, 40), func(cs *h.Case) {
+		c09Messages(cs, true)
+		runtime.GC()
+		debug.FreeOSMemory()
 	})
 
 	// length-prefix widening at varint boundaries and at the exact end of the pooled output buffer
@@ -688,4 +648,61 @@ func runC09(c *h.Ctx) {
 		cs.Cover("depth_ok")
 		cs.Distinct(fmt.Sprintf("depth-%d-%d", via, depth))
 	})
+}
+
+func c09Messages(cs *h.Case, huge bool) {
+	{
+		cfg := gen.PCfg{Unpacked: true, MaxDepth: 2, MaxFields: 6, Nested: cs.R.Bool(), Enums: true, BigNums: true, JSONNames: true, Optionals: cs.R.Bool()}
+		if huge {
+			cfg = gen.PCfg{MaxDepth: 0, MaxFields: 6, HugeNums: true, HugeScalar: true, NoMaps: true, Enums: true}
+			cs.Cover("huge_field_number_schemas")
+		}
+		sc := gen.GenPSchema(cs.R, cfg)
+		pc, err := PCompile(sc)
+		if err != nil {
+			cs.Cover("oracle_schema_rejected")
+			return
+		}
+		cs.Info("proto", pc.Text)
+		svc, err := dproto.NewDescritorFromContent(context.Background(), "verif.proto", pc.Text, nil)
+		if err != nil {
+			cs.Viol("j2p:parse", "err", err)
+			return
+		}
+		desc := svc.LookupMethodByName("M").Input()
+		m := PGenMsg(cs.R, pc.Root, PValCfg{MaxElems: 5, MaxDepth: 3}, 0)
+		ps := PJSpell{WS: cs.R.Intn(3), Escape: cs.R.Bool(), NumExp: cs.R.Bool(), Nulls: cs.R.Chance(25), Unknowns: cs.R.Chance(30), Shuffle: cs.R.Bool(), Names: cs.R.Intn(3)}
+		doc, w := PRenderJSON(cs.R, m, ps)
+		cs.Info("message", trunc(fmt.Sprint(m)))
+		cs.Info("spell", fmt.Sprintf("%+v", ps))
+		o := conv.Options{DisallowUnknownField: cs.R.Chance(30)}
+		if o.DisallowUnknownField && w.unknowns > 0 {
+			cv := j2p.NewBinaryConv(o)
+			out, err := cv.Do(context.Background(), desc, []byte(doc))
+			if err == nil {
+				cs.Viol("j2p:unknown-member-accepted", "json", trunc(doc), "out", out)
+			}
+			cs.Cover("j2p_unknown_rejected")
+			return
+		}
+		kind := "msg"
+		if w.nulls > 0 {
+			kind = "null-members"
+		} else if w.unknowns > 0 {
+			kind = "unknown-members"
+		}
+		if c09Check(cs, desc, pc.Root, doc, m, o, kind) {
+			cs.Cover("j2p_ok")
+			if w.nulls > 0 {
+				cs.Cover("j2p_ok_with_null_members")
+			}
+			if w.unknowns > 0 {
+				cs.Cover("j2p_ok_with_unknown_members")
+			}
+			cs.Distinct(fmt.Sprintf("j-%v-%v-%d-%s", w.nulls > 0, w.unknowns > 0, ps.Names, c20Shape(m)))
+			if cs.I == 4 {
+				cs.Sample(map[string]interface{}{"proto": pc.Text, "json": trunc(doc), "message": trunc(fmt.Sprint(m))})
+			}
+		}
+	}
 }
